@@ -59,8 +59,8 @@ func runC12(c *Ctx, r *Rec) {
 				bi = i
 			}
 		}
-		if ti < 0 || bi < 0 {
-			continue
+		if ti < 0 || bi < 0 || sig.Results().Len() < 3 {
+			continue // the parse methods hand back (what was parsed, the token, ok)
 		}
 		nD1++
 		construct := c.fdName(fd)
